@@ -16,11 +16,22 @@ def check(run):
         raise Inconclusive('vacuity twin found nothing')
     records = []
     total_ws = 3 if thorough else 2
-    for i, (dev, units) in enumerate(LEX_BASE):
+    # short messages first: a change that makes the executor fork per letter blows up on the long ones, and a counterexample on a short
+    # message should not have to wait for them
+    order = sorted(range(len(LEX_BASE)), key=lambda i: sum(len(m) for u in LEX_BASE[i][1] for m in u[1]) + 4 * sum(len(u[3]) for u in LEX_BASE[i][1]))
+    found = False
+    for i in order:
+        dev, units = LEX_BASE[i]
+        if found and run.unfinished:
+            break               # the verdict is already a violation; the remaining explorations would only time out
+        cap = 1800 if thorough else 300
+        if len(run.unfinished) >= 3:
+            cap = 60            # the run cannot end as a pass any more: look for counterexamples only briefly
         canon = ';'.join((':' if ab else '') + ':'.join(parts) + ('?' if q else '') + ((' ' + ','.join(a.decode() for a in args)) if args else '') for ab, parts, q, args in units)
         st = run.explore(f'{dev}: "{canon}" -- every case combination (symbolic), every short/long choice, up to {total_ws} extra white-space bytes (each over all 32 values) in any slots, LF / CR LF',
-                         SPEC + ({'msg': i, 'total_ws': total_ws, 'max_ws': 2 if not thorough else 3},), 1800 if thorough else 300)
+                         SPEC + ({'msg': i, 'total_ws': total_ws, 'max_ws': 2 if not thorough else 3},), cap)
         records.extend(st['records'])
+        found = found or any(r.get('violations') for r in st['records'])
     viol = {}
     seen = set()
     for r in records:
